@@ -204,6 +204,16 @@ pub struct Universe {
     pub big: bool,
 }
 
+/// An AS number: mostly from a handful (so that records collide), sometimes a
+/// boundary value (AS0, AS_TRANS, the 16/32-bit border, the largest).
+fn gen_asn(t: &mut Tape) -> u32 {
+    if t.chance(1, 8) {
+        *t.pick(&[0u32, 23456, 65535, 65536, 4_200_000_000, u32::MAX])
+    } else {
+        64496 + t.choose(4) as u32
+    }
+}
+
 impl Universe {
     /// Does this universe hold a record of tens of kilobytes (an ASPA with
     /// more providers than the library's constructor accepts)? Scenarios keep
@@ -226,13 +236,13 @@ impl Universe {
                 let maxlen = plen + t.choose((128 - plen) as u64 + 1) as u8;
                 let raw = (0x2001_0db8u128 << 96) | ((t.bits(32) as u128) << 64) | i as u128;
                 let addr = if plen == 0 { 0 } else { (raw >> (128 - plen as u32)) << (128 - plen as u32) };
-                keys.push(Key::Origin { v6: true, addr, plen, maxlen, asn: 64496 + t.choose(4) as u32 });
+                keys.push(Key::Origin { v6: true, addr, plen, maxlen, asn: gen_asn(t) });
             } else {
                 let plen = *t.pick(&[0u8, 1, 8, 16, 24, 31, 32]);
                 let maxlen = plen + t.choose((32 - plen) as u64 + 1) as u8;
                 let raw = (t.bits(32) as u32) ^ (i as u32).rotate_left(8);
                 let addr = if plen == 0 { 0 } else { (raw >> (32 - plen as u32)) << (32 - plen as u32) };
-                keys.push(Key::Origin { v6: false, addr: addr as u128, plen, maxlen, asn: 64496 + t.choose(4) as u32 });
+                keys.push(Key::Origin { v6: false, addr: addr as u128, plen, maxlen, asn: gen_asn(t) });
             }
         }
         // IPv6 prefixes with a special form: IPv4-mapped (::ffff:a.b.c.d),
@@ -249,7 +259,7 @@ impl Universe {
                 if t.chance(1, 2) {
                     let addr = if plen == 0 { 0 } else { (base >> (128 - plen as u32)) << (128 - plen as u32) };
                     let maxlen = plen + t.choose((128 - plen) as u64 + 1) as u8;
-                    keys.push(Key::Origin { v6: true, addr, plen, maxlen, asn: 64496 + t.choose(4) as u32 });
+                    keys.push(Key::Origin { v6: true, addr, plen, maxlen, asn: gen_asn(t) });
                 }
             }
         }
@@ -259,7 +269,7 @@ impl Universe {
             ski[0] = i as u8;
             ski[19] = t.choose(256) as u8;
             let n = *t.pick(&[0usize, 1, 33, 91, 200, 255, 256, 1024]);
-            let mut asn = 64500 + t.choose(3) as u32;
+            let mut asn = if t.chance(1, 6) { gen_asn(t) } else { 64500 + t.choose(3) as u32 };
             // sometimes the same key identifier and AS as the previous key with
             // other key info: to RTR these are two records
             if i > 0 && t.chance(1, 4) {
